@@ -238,6 +238,11 @@ def api_history(ex, fifo=False, crash_is_stuck=True):
     return out
 
 
+def _hkey(h):
+    # 16-byte digest of the canonical JSON text: the text itself doubles the memory of a thorough run
+    return hashlib.blake2b(json.dumps(h, sort_keys=True, separators=(',', ':')).encode(), digest_size=16).digest()
+
+
 def stream_groups(files, proj, keep=lambda ex: True, keep_events=False, counters=None):
     """Read raw trace files one execution at a time, project, de-duplicate: returns [history, representative, count] lists in
     first-seen order.  Raw events are dropped right away (a representative keeps program, schedule and status: enough to re-run
@@ -251,7 +256,7 @@ def stream_groups(files, proj, keep=lambda ex: True, keep_events=False, counters
             if not keep(ex):
                 continue
             h = proj(ex)
-            key = json.dumps(h, sort_keys=True, separators=(',', ':'))
+            key = _hkey(h)
             g = seen.get(key)
             if g is not None:
                 g[2] += 1
@@ -268,7 +273,7 @@ def merge_groups(lists):
     order = []
     for groups in lists:
         for h, ex, n in groups:
-            key = json.dumps(h, sort_keys=True, separators=(',', ':'))
+            key = _hkey(h)
             if key in seen:
                 seen[key][2] += n
             else:
